@@ -62,3 +62,13 @@ package managers
 //@   mode math
 //@   ensures its.sema == old(its.sema) && G.notifSyncs == old(G.notifSyncs) + 1
 //@   modifies *, G:notifSyncs
+
+// The deferred epilogue of a realtime delivery (the function literal deferred inside the delivery goroutine): whatever
+// the exchange returned — also an error — the datatype is asked whether it still has operations to push, and is
+// delivered again if so; nothing else retries a push whose exchange failed, and without it the server stores and
+// announces nothing until the user happens to operate again. The literal runs in a goroutine and re-enters
+// DeliverTransaction (which starts another); what is decided is structural: no return without the question.
+//@ func (*DatatypeManager).DeliverTransaction$1$1
+//@   props C18 C09
+//@   structural-only runs in a goroutine and starts another through DeliverTransaction
+//@   always-calls NeedPush
